@@ -212,6 +212,155 @@ fn c02_bucket_index_node_modular() {
 }
 
 // ---------------------------------------------------------------------------
+// KBucket::add_node / remove_node contracts (ASSUMED by Verus unit `bucket`, proved here on the
+// real functions; bounded: bucket length <= 3, ids fully symbolic).
+//   add:    a known peer is refreshed in place (same position, same length),
+//           an unknown peer is appended when there is room,
+//           otherwise Err and the bucket is unchanged.
+//   remove: exactly the entries with another id remain, in order.
+// ---------------------------------------------------------------------------
+
+fn any_bucket<const N: usize>() -> (KBucket, [[u8; 32]; N], usize) {
+    // concrete length per harness instance (symbolic lengths make CBMC's pointer analysis of
+    // Vec::retain / iter_mut().find blow up); ids and max_size fully symbolic
+    let mut ids = [[0u8; 32]; N];
+    let mut nodes = Vec::with_capacity(N + 1);
+    let mut i = 0;
+    while i < N {
+        ids[i] = kani::any();
+        nodes.push(mk_node(ids[i]));
+        i += 1;
+    }
+    let max_size: usize = kani::any();
+    (KBucket { nodes, max_size }, ids, N)
+}
+
+fn kbucket_add_check<const N: usize>() {
+    let (b, ids, len) = any_bucket::<N>();
+    let mut b = ManuallyDrop::new(b);
+    let max = b.max_size;
+    let id: [u8; 32] = kani::any();
+    // position of the first entry with this id, if any
+    let mut first = N;
+    let mut i = N;
+    while i > 0 {
+        i -= 1;
+        if i < len && ids[i] == id {
+            first = i;
+        }
+    }
+    let known = first < N;
+    let mut n = mk_node(id);
+    n.capacity.storage_available = 77; // marks the refreshed entry
+    let r = b.add_node(n);
+    let ok = r.is_ok();
+    std::mem::forget(r);
+    if N > 0 {
+        kani::cover!(known, "C02/kbucket/cover_refresh");
+    }
+    kani::cover!(!known && ok, "C02/kbucket/cover_append");
+    kani::cover!(!ok, "C02/kbucket/cover_full");
+    assert!(b.max_size == max, "C02/kbucket/add_keeps_max_size");
+    if known {
+        assert!(ok && b.nodes.len() == len, "C02/kbucket/known_peer_is_refreshed_in_place");
+    } else if len < max {
+        assert!(ok && b.nodes.len() == len + 1, "C02/kbucket/unknown_peer_appended_when_room");
+        assert!(b.nodes[len].id.as_bytes() == &id && b.nodes[len].capacity.storage_available == 77, "C02/kbucket/appended_entry_is_the_node");
+    } else {
+        assert!(!ok && b.nodes.len() == len, "C02/kbucket/full_bucket_refuses_unknown_peer");
+    }
+    // every old position keeps its id (refresh replaces the entry of the same id)
+    let j: usize = kani::any();
+    kani::assume(j < len);
+    assert!(b.nodes[j].id.as_bytes() == &ids[j], "C02/kbucket/add_keeps_ids_at_their_positions");
+}
+
+macro_rules! kbucket_add_harness {
+    ($name:ident, $n:expr) => {
+        #[kani::proof]
+        #[kani::stub(alloc::fmt::format, stub_format_c02)]
+        #[kani::unwind(6)]
+        fn $name() {
+            kbucket_add_check::<$n>();
+        }
+    };
+}
+macro_rules! kbucket_remove_harness {
+    ($name:ident, $n:expr) => {
+        #[kani::proof]
+        #[kani::unwind(6)]
+        fn $name() {
+            kbucket_remove_check::<$n>();
+        }
+    };
+}
+// @verif property=C02 class=bounded bound="bucket holding 0 entries, max_size any usize, ids fully symbolic" fns=KBucket::add_node uses=kbucket_add_check,any_bucket,kbucket_add_harness unwindset="memcmp:33" vacuous_ok="C02/kbucket/add_keeps_ids_at_their_positions,C02/kbucket/known_peer_is_refreshed_in_place,C02/kbucket/cover_refresh" tier=quick,thorough panic=violation
+kbucket_add_harness!(c02_kbucket_add_contract_0, 0);
+// @verif property=C02 class=bounded bound="bucket holding 1 entries, max_size any usize, ids fully symbolic" fns=KBucket::add_node uses=kbucket_add_check,any_bucket,kbucket_add_harness unwindset="memcmp:33" tier=quick,thorough panic=violation
+kbucket_add_harness!(c02_kbucket_add_contract_1, 1);
+// @verif property=C02 class=bounded bound="bucket holding 2 entries, max_size any usize, ids fully symbolic" fns=KBucket::add_node uses=kbucket_add_check,any_bucket,kbucket_add_harness unwindset="memcmp:33" tier=quick,thorough panic=violation
+kbucket_add_harness!(c02_kbucket_add_contract_2, 2);
+// @verif property=C02 class=bounded bound="bucket holding 3 entries, max_size any usize, ids fully symbolic" fns=KBucket::add_node uses=kbucket_add_check,any_bucket,kbucket_add_harness unwindset="memcmp:33" tier=thorough panic=violation
+kbucket_add_harness!(c02_kbucket_add_contract_3, 3);
+
+fn stub_format_c02(_args: std::fmt::Arguments<'_>) -> String {
+    String::new()
+}
+
+fn kbucket_remove_check<const N: usize>() {
+    let (b, ids, len) = any_bucket::<N>();
+    let mut b = ManuallyDrop::new(b);
+    let max = b.max_size;
+    let id: [u8; 32] = kani::any();
+    b.remove_node(&NodeId::from_bytes(id));
+    assert!(b.max_size == max, "C02/kbucket/remove_keeps_max_size");
+    // expected = filter(ids != id), in order
+    let mut want = [[0u8; 32]; N];
+    let mut wn = 0;
+    let mut i = 0;
+    while i < N {
+        if i < len && ids[i] != id {
+            want[wn] = ids[i];
+            wn += 1;
+        }
+        i += 1;
+    }
+    if N > 0 {
+        kani::cover!(wn < len, "C02/kbucket/cover_removed_some");
+    }
+    if N > 1 {
+        kani::cover!(wn + 2 <= len, "C02/kbucket/cover_removed_two");
+    }
+    assert!(b.nodes.len() == wn, "C02/kbucket/remove_keeps_exactly_the_other_entries");
+    let j: usize = kani::any();
+    kani::assume(j < wn);
+    assert!(b.nodes[j].id.as_bytes() == &want[j], "C02/kbucket/remove_keeps_order");
+}
+
+// @verif property=C02 class=bounded bound="bucket holding 0 entries, ids fully symbolic" fns=KBucket::remove_node uses=kbucket_remove_check,any_bucket,kbucket_remove_harness unwindset="memcmp:33" vacuous_ok="C02/kbucket/remove_keeps_order,C02/kbucket/cover_removed_some,C02/kbucket/cover_removed_two" tier=quick,thorough panic=violation
+kbucket_remove_harness!(c02_kbucket_remove_contract_0, 0);
+// @verif property=C02 class=bounded bound="bucket holding 1 entries, ids fully symbolic" fns=KBucket::remove_node uses=kbucket_remove_check,any_bucket,kbucket_remove_harness unwindset="memcmp:33" vacuous_ok="C02/kbucket/cover_removed_two" tier=quick,thorough panic=violation
+kbucket_remove_harness!(c02_kbucket_remove_contract_1, 1);
+// @verif property=C02 class=bounded bound="bucket holding 2 entries, ids fully symbolic" fns=KBucket::remove_node uses=kbucket_remove_check,any_bucket,kbucket_remove_harness unwindset="memcmp:33" tier=quick,thorough panic=violation
+kbucket_remove_harness!(c02_kbucket_remove_contract_2, 2);
+// @verif property=C02 class=bounded bound="bucket holding 3 entries, ids fully symbolic" fns=KBucket::remove_node uses=kbucket_remove_check,any_bucket,kbucket_remove_harness unwindset="memcmp:33" tier=thorough panic=violation
+kbucket_remove_harness!(c02_kbucket_remove_contract_3, 3);
+
+// @verif property=C02 class=complete fns=KademliaRoutingTable::new unwindset="KademliaRoutingTable::new:257" tier=off panic=violation
+#[kani::proof]
+#[kani::unwind(4)]
+fn c02_table_new_contract() {
+    let me: [u8; 32] = kani::any();
+    let k: usize = kani::any();
+    let t = ManuallyDrop::new(empty_table(me, k));
+    assert!(t.buckets.len() == 256, "C02/table/new_has_256_buckets");
+    let b: usize = kani::any();
+    kani::assume(b < 256);
+    assert!(t.buckets[b].nodes.len() == 0 && t.buckets[b].max_size == k, "C02/table/new_buckets_are_empty_with_max_size_k");
+    assert!(t.node_id.as_bytes() == &me, "C02/table/new_keeps_local_id");
+}
+
+// ---------------------------------------------------------------------------
 // Routing-table view contracts: add_node / remove_node keep the table a set of
 // peers (each id once, never the local id, every node in the bucket of its first
 // differing bit, bucket length <= k) and change the view exactly as stated.
@@ -293,16 +442,16 @@ fn table_history<const OPS: usize>() {
     }
 }
 
-// @verif property=C02 class=bounded bound="histories<=2 ops from empty table, k in 1..=2" fns=KademliaRoutingTable::new,KademliaRoutingTable::add_node,KademliaRoutingTable::remove_node,KBucket::add_node,KBucket::remove_node uses=table_history tier=quick panic=violation
+// @verif property=C02 class=bounded bound="histories<=2 ops from empty table, k in 1..=2" fns=KademliaRoutingTable::new,KademliaRoutingTable::add_node,KademliaRoutingTable::remove_node,KBucket::add_node,KBucket::remove_node uses=table_history unwindset="KademliaRoutingTable::new:257,get_bucket_index:257,spec_first_diff:257,DhtKey::distance:33,memcmp:33,table_len:257,count_id:257" tier=off panic=violation
 #[kani::proof]
-#[kani::unwind(257)]
+#[kani::unwind(5)]
 fn c02_table_history_2() {
     table_history::<2>();
 }
 
-// @verif property=C02 class=bounded bound="histories<=3 ops from empty table, k in 1..=2" fns=KademliaRoutingTable::new,KademliaRoutingTable::add_node,KademliaRoutingTable::remove_node,KBucket::add_node,KBucket::remove_node uses=table_history tier=thorough panic=violation
+// @verif property=C02 class=bounded bound="histories<=3 ops from empty table, k in 1..=2" fns=KademliaRoutingTable::new,KademliaRoutingTable::add_node,KademliaRoutingTable::remove_node,KBucket::add_node,KBucket::remove_node uses=table_history unwindset="KademliaRoutingTable::new:257,get_bucket_index:257,spec_first_diff:257,DhtKey::distance:33,memcmp:33,table_len:257,count_id:257" tier=off panic=violation
 #[kani::proof]
-#[kani::unwind(257)]
+#[kani::unwind(6)]
 fn c02_table_history_3() {
     table_history::<3>();
 }
@@ -437,19 +586,19 @@ macro_rules! fcn_harness {
 // (<= 4: bucket contents, sort, clone, collect, the harness's own loops); the loops whose trip
 // count is a constant of the code get that constant (256 buckets, 32 id bytes). Unwinding
 // assertions are on: a bound that is too small makes the harness UNDECIDED, never green.
-// @verif property=C02 class=bounded bound="1 node; key bucket 250, node bucket [255]" fns=KademliaRoutingTable::find_closest_nodes uses=fcn_check,fcn_harness,id_at unwindset="find_closest_nodes~offset:257,literal_empty_table:257,DhtKey::distance:33,spec_first_diff:257,dist_lt:33,id_at:33,memcmp:33,spec_is_xor:33" cbmc_args="--max-field-sensitivity-array-size 300" tier=quick,thorough panic=violation
+// @verif property=C02 class=bounded bound="1 node; key bucket 250, node bucket [255]" fns=KademliaRoutingTable::find_closest_nodes uses=fcn_check,fcn_harness,id_at unwindset="find_closest_nodes~offset:257,literal_empty_table:257,DhtKey::distance:33,spec_first_diff:257,dist_lt:33,id_at:33,memcmp:33,spec_is_xor:33" tier=off panic=violation
 fcn_harness!(c02_fcn_1_t250_top, 1, Some(250), [255]);
-// @verif property=C02 class=bounded bound="2 nodes; key bucket 100, node buckets [99,102]" fns=KademliaRoutingTable::find_closest_nodes uses=fcn_check,fcn_harness,id_at unwindset="find_closest_nodes~offset:257,literal_empty_table:257,DhtKey::distance:33,spec_first_diff:257,dist_lt:33,id_at:33,memcmp:33,spec_is_xor:33" cbmc_args="--max-field-sensitivity-array-size 300" tier=quick,thorough panic=violation
+// @verif property=C02 class=bounded bound="2 nodes; key bucket 100, node buckets [99,102]" fns=KademliaRoutingTable::find_closest_nodes uses=fcn_check,fcn_harness,id_at unwindset="find_closest_nodes~offset:257,literal_empty_table:257,DhtKey::distance:33,spec_first_diff:257,dist_lt:33,id_at:33,memcmp:33,spec_is_xor:33" tier=off panic=violation
 fcn_harness!(c02_fcn_2_t100_far_near, 2, Some(100), [99, 102]);
-// @verif property=C02 class=bounded bound="3 nodes; key bucket 100, node buckets [99,99,102]" fns=KademliaRoutingTable::find_closest_nodes uses=fcn_check,fcn_harness,id_at unwindset="find_closest_nodes~offset:257,literal_empty_table:257,DhtKey::distance:33,spec_first_diff:257,dist_lt:33,id_at:33,memcmp:33,spec_is_xor:33" cbmc_args="--max-field-sensitivity-array-size 300" tier=quick,thorough panic=violation
+// @verif property=C02 class=bounded bound="3 nodes; key bucket 100, node buckets [99,99,102]" fns=KademliaRoutingTable::find_closest_nodes uses=fcn_check,fcn_harness,id_at unwindset="find_closest_nodes~offset:257,literal_empty_table:257,DhtKey::distance:33,spec_first_diff:257,dist_lt:33,id_at:33,memcmp:33,spec_is_xor:33" tier=off panic=violation
 fcn_harness!(c02_fcn_3_t100_far_far_near, 3, Some(100), [99, 99, 102]);
-// @verif property=C02 class=bounded bound="3 nodes; key bucket 250, node buckets [255,255,0]" fns=KademliaRoutingTable::find_closest_nodes uses=fcn_check,fcn_harness,id_at unwindset="find_closest_nodes~offset:257,literal_empty_table:257,DhtKey::distance:33,spec_first_diff:257,dist_lt:33,id_at:33,memcmp:33,spec_is_xor:33" cbmc_args="--max-field-sensitivity-array-size 300" tier=quick,thorough panic=violation
+// @verif property=C02 class=bounded bound="3 nodes; key bucket 250, node buckets [255,255,0]" fns=KademliaRoutingTable::find_closest_nodes uses=fcn_check,fcn_harness,id_at unwindset="find_closest_nodes~offset:257,literal_empty_table:257,DhtKey::distance:33,spec_first_diff:257,dist_lt:33,id_at:33,memcmp:33,spec_is_xor:33" tier=off panic=violation
 fcn_harness!(c02_fcn_3_t250_top_saturation, 3, Some(250), [255, 255, 0]);
-// @verif property=C02 class=bounded bound="3 nodes; key bucket 3, node buckets [0,0,255]" fns=KademliaRoutingTable::find_closest_nodes uses=fcn_check,fcn_harness,id_at unwindset="find_closest_nodes~offset:257,literal_empty_table:257,DhtKey::distance:33,spec_first_diff:257,dist_lt:33,id_at:33,memcmp:33,spec_is_xor:33" cbmc_args="--max-field-sensitivity-array-size 300" tier=quick,thorough panic=violation
+// @verif property=C02 class=bounded bound="3 nodes; key bucket 3, node buckets [0,0,255]" fns=KademliaRoutingTable::find_closest_nodes uses=fcn_check,fcn_harness,id_at unwindset="find_closest_nodes~offset:257,literal_empty_table:257,DhtKey::distance:33,spec_first_diff:257,dist_lt:33,id_at:33,memcmp:33,spec_is_xor:33" tier=off panic=violation
 fcn_harness!(c02_fcn_3_t3_bottom_saturation, 3, Some(3), [0, 0, 255]);
-// @verif property=C02 class=bounded bound="3 nodes; key bucket 128, node buckets [128,128,128]" fns=KademliaRoutingTable::find_closest_nodes uses=fcn_check,fcn_harness,id_at unwindset="find_closest_nodes~offset:257,literal_empty_table:257,DhtKey::distance:33,spec_first_diff:257,dist_lt:33,id_at:33,memcmp:33,spec_is_xor:33" cbmc_args="--max-field-sensitivity-array-size 300" tier=quick,thorough panic=violation
+// @verif property=C02 class=bounded bound="3 nodes; key bucket 128, node buckets [128,128,128]" fns=KademliaRoutingTable::find_closest_nodes uses=fcn_check,fcn_harness,id_at unwindset="find_closest_nodes~offset:257,literal_empty_table:257,DhtKey::distance:33,spec_first_diff:257,dist_lt:33,id_at:33,memcmp:33,spec_is_xor:33" tier=off panic=violation
 fcn_harness!(c02_fcn_3_t128_same_bucket, 3, Some(128), [128, 128, 128]);
-// @verif property=C02 class=bounded bound="3 nodes; key == local id, node buckets [255,254,0]" fns=KademliaRoutingTable::find_closest_nodes uses=fcn_check,fcn_harness,id_at unwindset="find_closest_nodes~offset:257,literal_empty_table:257,DhtKey::distance:33,spec_first_diff:257,dist_lt:33,id_at:33,memcmp:33,spec_is_xor:33" cbmc_args="--max-field-sensitivity-array-size 300" tier=quick,thorough panic=violation
+// @verif property=C02 class=bounded bound="3 nodes; key == local id, node buckets [255,254,0]" fns=KademliaRoutingTable::find_closest_nodes uses=fcn_check,fcn_harness,id_at unwindset="find_closest_nodes~offset:257,literal_empty_table:257,DhtKey::distance:33,spec_first_diff:257,dist_lt:33,id_at:33,memcmp:33,spec_is_xor:33" tier=off panic=violation
 fcn_harness!(c02_fcn_3_key_is_self, 3, None, [255, 254, 0]);
 
 // Native replay slot: `cargo kani playback` compiles the crate with cfg(test)+cfg(kani);
